@@ -37,13 +37,15 @@ Proof. exact run_batch_app. Qed.
 
 (* After a server Connection.Close (or a client exception) the channel-0 sources are gone:
    the wake-ups for them that were pending in the same batch are ignored - they do not
-   panic - and so is a wake-up for a channel whose slot the close removed. *)
+   panic - and so is a wake-up for a channel whose slot the close removed (nothing is
+   received; only the re-poll flag is set if the buffer is above the high-water mark). *)
 Theorem C20_stale : forall c,
   c_ch0 c = None ->
   handle_event c EvAlloc = (OOk, c, []) /\
   handle_event c EvSetBlocked = (OOk, c, []) /\
   handle_event c (EvChan 0) = (OOk, c, []) /\
-  (forall n, n <> 0 -> alookup n (c_slots c) = None -> handle_event c (EvChan n) = (OOk, c, [])).
+  (forall n, n <> 0 -> alookup n (c_slots c) = None ->
+     handle_event c (EvChan n) = (OOk, (if c_high c <? out_len c then set_need c true else c), [])).
 Proof. exact stale_wakeups. Qed.
 
 (* non-vacuity: the witness of the repaired defect F6 - the server's Connection.Close and
@@ -98,7 +100,8 @@ Check C20_stale : forall c,
   handle_event c EvAlloc = (OOk, c, []) /\
   handle_event c EvSetBlocked = (OOk, c, []) /\
   handle_event c (EvChan 0) = (OOk, c, []) /\
-  (forall n, n <> 0 -> alookup n (c_slots c) = None -> handle_event c (EvChan n) = (OOk, c, [])).
+  (forall n, n <> 0 -> alookup n (c_slots c) = None ->
+     handle_event c (EvChan n) = (OOk, (if c_high c <? out_len c then set_need c true else c), [])).
 
 Print Assumptions C20_no_panic.
 Print Assumptions C20_one_event.
